@@ -110,7 +110,7 @@ def goBridge (ports : List Nat) (s : BridgeState) : List BridgeAct → List Stri
 def goClient (s : ClientState) : List ClientAct → List String
   | [] => []
   | a :: rest =>
-    let (s', o) := clientStep s a
+    let (s', o) := clientStep true s a
     (o.text.replace " " "_" ++ ":" ++ (if s'.connected then "1" else "0") ++ ":" ++ toString s'.openSocks.length) :: goClient s' rest
 
 def drive : List String → String
